@@ -17,6 +17,7 @@ import (
 	"github.com/openGemini/openGemini/engine/immutable"
 	"github.com/openGemini/openGemini/lib/cpu"
 	kit "github.com/openGemini/openGemini/lib/verifkit"
+	"github.com/openGemini/openGemini/lib/verifkit/crashfs"
 	"github.com/openGemini/openGemini/lib/verifkit/sched"
 )
 
@@ -275,6 +276,7 @@ var c04FileGC int64
 
 // c04Body runs one execution of a scenario under x; returns violations (kind, detail).
 var c04ExecSeq int
+var c04KeepDir bool
 
 func c04Body(sc c04Scenario, baseDir string, x *sched.Exec) (kind, detail string, fatal bool) {
 	if sched.Trace {
@@ -285,7 +287,9 @@ func c04Body(sc c04Scenario, baseDir string, x *sched.Exec) (kind, detail string
 	c04ExecSeq++
 	vClock = 0 // same series ids in every execution (bloom filters and id-ordered iteration depend on them)
 	dir := fmt.Sprintf("%s-%d", baseDir, c04ExecSeq)
-	defer os.RemoveAll(dir)
+	if !c04KeepDir {
+		defer os.RemoveAll(dir)
+	}
 	v, err := vOpenShard(dir)
 	if err != nil {
 		return "harness_open_error", err.Error(), true
@@ -416,6 +420,46 @@ func c04Main(t *testing.T, rep *kit.Report) {
 			})
 			rep.Eval(1)
 			rep.Note("replayed %d points, schedule %s", len(x.Points), x.Schedule())
+		}
+		return
+	}
+	if n := kit.Getenv("VERIF_DETERMINISM_PROBE", ""); n != "" {
+		// run the default schedule of one scenario N times and compare the point signatures
+		var cnt int
+		fmt.Sscanf(n, "%d", &cnt)
+		for _, sc := range c04Scenarios {
+			if sc.Name != kit.Getenv("VERIF_SCENARIO", "S3_read_merge_write") {
+				continue
+			}
+			var base []string
+			baseListing := ""
+			for i := 0; i < cnt; i++ {
+				e := &sched.Explorer{TimeChoices: 1}
+				c04KeepDir = true
+				x := e.Replay(nil, func(x *sched.Exec) { c04Body(sc, dir, x) })
+				listing := strings.Join(crashfs.Listing(fmt.Sprintf("%s-%d/data", dir, c04ExecSeq)), " ")
+				_ = os.RemoveAll(fmt.Sprintf("%s-%d", dir, c04ExecSeq))
+				if i == 0 {
+					fmt.Printf("PROBE base listing: %s\n", listing)
+					baseListing = listing
+				} else if listing != baseListing {
+					fmt.Printf("PROBE run %d listing differs: %s\n", i, listing)
+				}
+				sigs := make([]string, len(x.Points))
+				for j := range x.Points {
+					sigs[j] = x.Points[j].Sig
+				}
+				if base == nil {
+					base = sigs
+					continue
+				}
+				for j := range sigs {
+					if j >= len(base) || sigs[j] != base[j] {
+						fmt.Printf("PROBE run %d differs from run 0 at point %d (exec %d):\n  base %s\n  this %s\n", i, j, c04ExecSeq, base[j], sigs[j])
+						break
+					}
+				}
+			}
 		}
 		return
 	}
